@@ -183,13 +183,16 @@ def litType (l : Lit) (a : Val) : Prop :=
 theorem litEq_type (a : Val) (l : Lit) (h : litEq a l.toVal = true) : litType l a := by
   cases l <;> cases a <;> simp [litEq, Lit.toVal, Val.asNum?, litType] at h ⊢
 
-theorem litEq_value (a : Val) (l : Lit) (h : litEq a l.toVal = true) :
-    match l with
-    | .num n => a.asNum? = some n
-    | .str s => a = .str s
-    | .bool b => a = .bool b
-    | .null => a = .null := by
-  cases l <;> cases a <;> simp [litEq, Lit.toVal, Val.asNum?] at h ⊢ <;> exact h
+/-- having the value of a literal (numbers: by numeric value, either decoding) -/
+def litValue (l : Lit) (a : Val) : Prop :=
+  match l with
+  | .num n => a.asNum? = some n
+  | .str s => a = .str s
+  | .bool b => a = .bool b
+  | .null => a = .null
+
+theorem litEq_value (a : Val) (l : Lit) (h : litEq a l.toVal = true) : litValue l a := by
+  cases l <;> cases a <;> simp [litEq, Lit.toVal, Val.asNum?, litValue] at h ⊢ <;> exact h
 
 theorem ordPart_true (op : CmpOp) (l r : Option Val) (h : ordPart op l r = true) :
     ∃ a b x y, l = some a ∧ r = some b ∧ a.asNum? = some x ∧ b.asNum? = some y ∧ numRel op x y = true := by
